@@ -1,3 +1,4 @@
+import Mimium.Gen.C14
 /-!
 # Token-level model of the parser's newline sensitivity (`cst_parser.rs`)
 
@@ -18,7 +19,7 @@ namespace Mimium.NewlineRule
 inductive TK where
   | atom            -- identifier / literal: a one-token primary
   | op (prec : Nat) -- binary operator that is not also a prefix operator
-  | minus           -- `-` / `+`: infix (precedence 7) and prefix
+  | minus           -- `-` / `+`: infix (precedence `Gen.C14.minusPrec`, re-extracted each run) and prefix
   | lparen | rparen | lbrack | rbrack | dot | comma
 deriving DecidableEq, Repr, Inhabited
 
@@ -31,7 +32,7 @@ deriving Repr, Inhabited
 /-- `get_infix_precedence` -/
 def infixPrec : Option TK → Option Nat
   | some (.op p) => some p
-  | some .minus => some 7
+  | some .minus => some Mimium.Gen.C14.minusPrec
   | _ => none
 
 /-- the tokens in front of which a line break changes the parse: the postfixL openers -/
